@@ -578,6 +578,18 @@ func checkWaitGroupBalance(p *core.Prog, r *core.Report, rule string, fns []*ssa
 				adds = append(adds, in)
 			}
 		})
+		// an errgroup.Group used only to wait pairs the Add and the Done itself (that it carries no fail-fast context
+		// is decided by the fan-out rule)
+		eg := 0
+		core.EachInstr(f, func(in ssa.Instruction) {
+			if ci, ok := in.(ssa.CallInstruction); ok {
+				if callee := ci.Common().StaticCallee(); callee != nil && callee.Name() == "Go" && callee.Signature.Recv() != nil && strings.HasSuffix(callee.Signature.Recv().Type().String(), "errgroup.Group") {
+					eg++
+					n++
+					r.Hold(rule, fmt.Sprintf("%s|errgroup-go#%d|paired-by-construction", core.FnKey(f), eg), p.Pos(in.Pos()), "errgroup.Group.Go counts the goroutine in and out itself")
+				}
+			}
+		})
 		for i, a := range adds {
 			n++
 			if args := a.(ssa.CallInstruction).Common().Args; len(args) == 2 {
